@@ -30,6 +30,7 @@ type ReqStep struct {
 	Res   string `json:"res"`   // resource (index name / kv key) the request names
 	Tok   string `json:"tok"`   // token name ("", "root", "read_all", ..., or a manipulation "tamper:read_all")
 	Note  string `json:"note,omitempty"`
+	Decoy string `json:"decoy,omitempty"` // path-addressed routes: an "index_name" planted in the body (the path names the resource, the body must not)
 }
 
 type c16Route struct {
@@ -62,6 +63,9 @@ var c16Routes = map[string]c16Route{
 	"drop_index":    {"DELETE", func(res string) string { return "/vector/indexes/" + res }, nil, "write", "index"},
 	"autolinks":     {"PUT", func(res string) string { return "/vector/indexes/" + res + "/auto-links" }, func(string, int) any { return map[string]any{"rules": []any{}} }, "write", "index"},
 	"maintenance":   {"POST", func(res string) string { return "/vector/indexes/" + res + "/maintenance" }, func(string, int) any { return map[string]any{"type": "vacuum"} }, "write", "index"},
+	"index_config": {"POST", func(res string) string { return "/vector/indexes/" + res + "/config" }, func(_ string, n int) any {
+		return map[string]any{"vacuum_interval": fmt.Sprintf("%dm", 7+n%50), "delete_threshold": 0.2, "refine_enabled": n%2 == 0}
+	}, "write", "index"},
 	"create_index":  {"POST", func(string) string { return "/vector/actions/create" }, func(res string, n int) any { return map[string]any{"index_name": fmt.Sprintf("%s_n%d", res, n), "metric": "euclidean"} }, "write", "none"},
 	"kv_set":        {"POST", func(res string) string { return "/kv/" + res }, func(string, int) any { return map[string]any{"value": "changed"} }, "write", "kv"},
 	"kv_put":        {"PUT", func(res string) string { return "/kv/" + res }, func(string, int) any { return map[string]any{"value": "changed2"} }, "write", "kv"},
@@ -242,6 +246,9 @@ func runC16(w *World, tr *Trace) {
 			default:
 				st.Res = pick(r, c16Indexes)
 			}
+			if c16Routes[rt].kind == "index" && r.Intn(3) == 0 {
+				st.Decoy = pick(r, c16Indexes)
+			}
 			// bias towards the interesting combinations
 			if r.Intn(3) == 0 {
 				st.Tok = pick(r, []string{"read_all", "read_alpha", "write_alpha", "write_all"})
@@ -316,6 +323,11 @@ func runC16(w *World, tr *Trace) {
 				var body any
 				if rt.body != nil {
 					body = rt.body(st.Res, i)
+					if bm, ok := body.(map[string]any); ok && st.Decoy != "" {
+						if _, has := bm["index_name"]; !has {
+							bm["index_name"] = st.Decoy
+						}
+					}
 				}
 				path := rt.path(st.Res)
 				before := publicReadout(w.E, u)
